@@ -127,6 +127,35 @@ def data_convs(tier, rng, limits=(0,), lmtp_modes=((0, 0), (1, 0), (1, 1))):
     return cases
 
 
+def message_spans(lines):
+    """[start, end) offsets of each message's octets on the wire (from its DATA/first BDAT command line to the end of the
+    end-of-data line / of the LAST chunk's payload), in the order the deliveries begin.  Knows only how the letters of
+    convgen lay out a conversation: a DATA line is followed by one payload entry; a BDAT line by its payload entry."""
+    spans, off, i, open_bdat = [], 0, 0, None
+    while i < len(lines):
+        l = lines[i]
+        up = l.upper()
+        if up.startswith(b"DATA") and i + 1 < len(lines):
+            spans.append((off, off + len(l) + len(lines[i + 1])))
+            off += len(l) + len(lines[i + 1]); i += 2; continue
+        if up.startswith(b"BDAT"):
+            head = l.split(b"\r\n")[0].split()
+            n = int(head[1]) if len(head) > 1 and head[1].isdigit() else 0
+            last = len(head) > 2 and head[2].upper() == b"LAST"
+            size = len(l)
+            if n > 0 and l.endswith(b"\r\n") and i + 1 < len(lines):      # payload is the next entry
+                size += len(lines[i + 1]); i += 1
+            if open_bdat is None:
+                open_bdat = off
+            if last:
+                spans.append((open_bdat, off + size)); open_bdat = None
+            off += size; i += 1; continue
+        if up.startswith(b"RSET") or up.startswith(b"MAIL"):
+            open_bdat = None
+        off += len(l); i += 1
+    return spans
+
+
 def cut_convs(tier, rng):
     convs = [
         ["EHLO", "MAIL", "RCPT-A", "DATA-ok", "NOOP", "QUIT"],
@@ -149,8 +178,12 @@ def cut_convs(tier, rng):
             c.q["DATA"] = [g.ddec(ret="prop") for _ in c.q["DATA"]] or [g.ddec(ret="prop")]
             total = len(b"".join(c.lines))
             step = 1 if tier == "thorough" or total < 160 else 2
+            spans = message_spans(c.lines)
             for cut in range(0, total + 1, step):
-                out.append(c.case(seg=rng.choice(["one", "rand"]), rng=rng, cut=cut))
+                case = c.case(seg=rng.choice(["one", "rand"]), rng=rng, cut=cut)
+                # the connection is lost at `cut`: the message whose octets straddle it is incomplete
+                inc = [k for k, (a, b) in enumerate(spans) if a < cut < b]
+                out.append(case + ("\tTAG=incomplete:%d" % inc[0] if inc else ""))
     return out
 
 
